@@ -81,7 +81,10 @@ def run(R):
     for fn in F.functions(qname="dispenso::detail::SmallBufferAllocator::PerThreadQueuingData::(dtor)"):
         nc += 1
         calls = [(p, e) for p, e in fn.events() if e.get("k") == "call" and e.get("name") == "enqueue_bulk"]
-        ok = bool(calls) and any(any(nn.get("k") == "member" and nn.get("fname") == "buffers_" for nn in subexprs(e)) and any(nn.get("k") == "member" and nn.get("fname") == "count_" for nn in subexprs(e)) for _, e in calls)
+        def mentions(p, e, field):   # through single-definition locals (`const size_t n = count_;`)
+            return any(nn.get("k") == "member" and nn.get("fname") == field
+                       for a in (e.get("args") or []) for nn in subexprs(fn.expand_expr(a, use_block=p.b)))
+        ok = bool(calls) and any(mentions(p, e, "buffers_") and mentions(p, e, "count_") for p, e in calls)
         R.ob("C41.cleanup", fn, fn.loc, ok, "thread exit returns buffers_[0..count_) to the central store" if ok else "cached blocks are lost at thread exit", sitekey="thread-exit", why="blocks cached by an exiting thread must stay available")
     R.need("C41.cleanup", nc, 1, "PerThreadQueuingData destructor")
 
